@@ -162,6 +162,9 @@ pub struct Session {
     pub initial: Value,
     loaded_mtime: Option<SystemTime>,
     clock: u64,
+    /// explicit modification times of the user's auto-correct file: t0 + mtime_ms, strictly increasing
+    pub mtime_ms: u64,
+    pub t0: SystemTime,
     pub model_dead: bool,
     /// whether the tables the context loaded at construction came from the database directory
     pub model_db: bool,
@@ -248,7 +251,7 @@ impl Session {
         let initial = json!({"layout": opts.layout, "database": opts.database, "option_bits": if phonetic { pbits(&opts) } else { xbits(&opts) },
             "options": format!("{:?}", opts), "user_files": files});
         let model_db = opts.database;
-        let mut s = Session { phonetic, layout_tag, opts, cfg, ctx, dir, history: vec![], initial, loaded_mtime: None, clock: 0, model_dead: false, model_db: false, id: format!("s{}", NEXT_ID.fetch_add(1, std::sync::atomic::Ordering::Relaxed)) };
+        let mut s = Session { phonetic, layout_tag, opts, cfg, ctx, dir, history: vec![], initial, loaded_mtime: None, clock: 0, mtime_ms: 0, t0: SystemTime::now() + Duration::from_secs(2), model_dead: false, model_db: false, id: format!("s{}", NEXT_ID.fetch_add(1, std::sync::atomic::Ordering::Relaxed)) };
         s.model_db = model_db;
         s.model_new(w)?;
         Ok(s)
@@ -288,7 +291,9 @@ impl Session {
                 if !matches!(edit, UacEdit::Keep | UacEdit::Delete) {
                     // modification times are set explicitly: strictly later than anything before
                     if let Ok(f) = std::fs::File::options().write(true).open(&path) {
-                        let _ = f.set_modified(SystemTime::now() + Duration::from_secs(10 * self.clock));
+                        // alternately 0.3 s and 10 s after the previous edit (a reload must not need whole seconds)
+                        self.mtime_ms += if self.clock % 2 == 1 { 300 } else { 10_000 };
+                        let _ = f.set_modified(self.t0 + Duration::from_millis(self.mtime_ms));
                     }
                 }
                 if self.phonetic { set_pbits(&mut self.opts, *bits) } else { set_xbits(&mut self.opts, *bits) }
